@@ -443,6 +443,20 @@ func init() {
 	}, "os.Rename")
 
 	reg(func(r *Run, fr *frame, args []Value) Value {
+		from, to := args[0].(string), args[1].(string)
+		r.fsOp("link " + from + " " + to)
+		f := r.fs().files[filepath.Clean(from)]
+		if f == nil || !f.exists {
+			return r.notExistErr(fr, from)
+		}
+		if t := r.fs().files[filepath.Clean(to)]; t != nil && t.exists {
+			return r.errResult(fr, "link "+from+" "+to+": file exists")
+		}
+		t := r.fs().get(to)
+		*t = *f
+		return Iface{}
+	}, "os.Link")
+	reg(func(r *Run, fr *frame, args []Value) Value {
 		h := handleOf(fr, args[0])
 		b := args[1].(Slice)
 		if h.closed {
